@@ -305,9 +305,20 @@ func (e *vf15Env) dump(comp bool) string {
 	}
 	bits := []string{}
 	for _, a := range ps.OutsideAddresses {
+		// the set of taken block indices, as bitmap words with trailing zero words dropped: a bitmap that is nil,
+		// shorter or longer than ceil(TotalBlocks/64) but has the same bits set prints the same
 		ws := []string{}
-		for _, w := range a.AllocatedBits {
+		last := -1
+		for i, w := range a.AllocatedBits {
+			if w != 0 {
+				last = i
+			}
+		}
+		for _, w := range a.AllocatedBits[:last+1] {
 			ws = append(ws, fmt.Sprintf("%x", w))
+		}
+		if len(ws) == 0 {
+			ws = []string{"0"}
 		}
 		x := ""
 		if a.Excluded {
